@@ -367,8 +367,11 @@ def r4_owner(ctx, F, cg, ext_fn, where):
         ctx.violation('C11-R4', key + ':literal', 'cannot identify the %s literal in %s' % (S, cfn.path), where)
         return
     lit = lits[0]
+    # a field of scalar type (a length taken of the extended slice, a flag) cannot carry the borrow: only the others can be the referrer
+    _fty = {x['name']: x['ty'] for a_ in [F.adts.get(S)] if a_ for x in a_['variants'][0]['fields']}
+    _scalar = lambda f_: (_fty.get(f_) or {}).get('k') in ('uint', 'int', 'float', 'bool', 'char')
     referrers = [f for f, v in lit[4].items()
-                 if any(n[0] == 'call' and prov.callee(n) == ext_fn.path for n in prov.walk(v))]
+                 if not _scalar(f) and any(n[0] == 'call' and prov.callee(n) == ext_fn.path for n in prov.walk(v))]
     if len(referrers) != 1:
         ctx.violation('C11-R4', key + ':referrer', 'expected one field of %s fed by extend_lifetime, found %s' % (S, referrers), where)
         return
